@@ -851,6 +851,11 @@ namespace sim
 			// called when a packet is dropped
 			void packet_dropped(aux::packet p);
 
+			// the callback installed in outgoing segments. It reaches the
+			// socket through its forwarder, so that it finds the socket after
+			// a move and finds nothing once the socket is closed or destroyed
+			aux::function<void(aux::packet)> make_drop_fun() const;
+
 			aux::function<void(boost::system::error_code const&)> m_connect_handler;
 
 			asio::high_resolution_timer m_connect_timer;
